@@ -376,8 +376,20 @@ func c19LockForms(c *runCtx, gb, tmpl string, id entity.Id) {
 		os.RemoveAll(dir)
 	}
 	// a repository shared by two users: the holder belongs to somebody else, the opener may not signal it
+	asNobody := func(cmd *exec.Cmd) {
+		cmd.SysProcAttr = &syscall.SysProcAttr{Credential: &syscall.Credential{Uid: 65534, Gid: 65534}}
+	}
+	canRunAsNobody := false
 	if os.Geteuid() == 0 {
+		// (the binary and the scratch directory have to be reachable by that user: not so when the
+		// framework itself lives under a private directory)
 		os.Chmod(scratchRoot, 0o755)
+		probe := exec.Command(gb, "version")
+		probe.Dir = scratchRoot
+		asNobody(probe)
+		canRunAsNobody = probe.Run() == nil
+	}
+	if canRunAsNobody {
 		dir := copyDir(tmpl)
 		exec.Command("chmod", "-R", "a+rwX", dir).Run()
 		p0 := c19Start(gb, dir, id)
@@ -394,7 +406,7 @@ func c19LockForms(c *runCtx, gb, tmpl string, id entity.Id) {
 				cmd := exec.Command(gb, "bug")
 				cmd.Dir = dir
 				cmd.Env = gbEnv(dir)
-				cmd.SysProcAttr = &syscall.SysProcAttr{Credential: &syscall.Credential{Uid: 65534, Gid: 65534}}
+				asNobody(cmd)
 				done := make(chan struct{})
 				go func() { out, err = cmd.CombinedOutput(); close(done) }()
 				select {
@@ -423,7 +435,7 @@ func c19LockForms(c *runCtx, gb, tmpl string, id entity.Id) {
 		}
 		os.RemoveAll(dir)
 	} else {
-		c.count("lock-form/holder-of-another-user=skipped-not-root")
+		c.count("lock-form/holder-of-another-user=skipped (not root, or the binary is not reachable by another user)")
 	}
 }
 
